@@ -163,16 +163,6 @@ pub fn run(kv: &Args) -> i32 {
         let (sseed, rseed, sname) = seed_set(5, seed, 2100 + cb as usize + tb as usize, &mut r);
         insts.push(make_inst(&format!("inst-{nm}[sid32,{sname}]"), sid, sseed, rseed, [cb; LB], [tb; SB]));
     }
-    for it in &insts {
-        writeln!(log, "instance {} sid={} choices={} tape={} random_choices={} enc_keys={}", it.name, hx(&it.sid), hx(&it.choices), hx(&it.tape),
-            hx(&it.rseed.random_choices), hx(bytemuck::bytes_of(&it.sseed.otp_enc_keys))).unwrap();
-    }
-
-    let mut jobs: Vec<Job> = vec![];
-    // ---- honest messages
-    for (k, it) in insts.iter().enumerate() {
-        jobs.push(Job { inst: k, kind: "honest".into(), detail: String::new(), msg: it.honest.clone(), expect: Expect::AcceptHonest, adv: None, model: true });
-    }
     // an honest instance whose seed set has special key VALUES at known (non-punctured) leaves, the same on both sides:
     // all-zero and all-one keys (only its honest message is used)
     {
@@ -188,6 +178,16 @@ pub fn run(kv: &Args) -> i32 {
         let mut tape = [0u8; SB];
         r.fill_bytes(&mut tape);
         insts.push(make_inst(&format!("inst-special-keys[sid32,{sname},{cname}]"), sid, sseed, rseed, choices, tape));
+    }
+    for it in &insts {
+        writeln!(log, "instance {} sid={} choices={} tape={} random_choices={} enc_keys={}", it.name, hx(&it.sid), hx(&it.choices), hx(&it.tape),
+            hx(&it.rseed.random_choices), hx(bytemuck::bytes_of(&it.sseed.otp_enc_keys))).unwrap();
+    }
+
+    let mut jobs: Vec<Job> = vec![];
+    // ---- honest messages
+    for (k, it) in insts.iter().enumerate() {
+        jobs.push(Job { inst: k, kind: "honest".into(), detail: String::new(), msg: it.honest.clone(), expect: Expect::AcceptHonest, adv: None, model: true });
     }
     let n_main = degenerate;
     // ---- single-bit flips: 3 fields x N positions (model + real)
